@@ -227,7 +227,7 @@ func replayAlloc(c *ctx, ops []string) {
 type pool6cfg struct{ poolLen, page int }
 
 func genAlloc6(c *ctx) {
-	small := []pool6cfg{{56, 56}, {56, 57}, {56, 58}, {48, 52}, {60, 66}, {64, 70}, {120, 126}, {0, 6}, {1, 7}, {63, 65}, {64, 64}, {124, 128}, {58, 64}, {72, 79}}
+	small := []pool6cfg{{56, 56}, {56, 57}, {56, 58}, {48, 52}, {60, 66}, {64, 70}, {120, 126}, {0, 6}, {1, 7}, {63, 65}, {64, 64}, {124, 128}, {58, 64}, {72, 79}, {80, 96}, {90, 100}, {96, 104}}
 	big_ := []pool6cfg{{48, 64}, {112, 128}, {40, 52}, {64, 74}, {56, 64}}
 	bad := []pool6cfg{{64, 56}, {0, 64}, {10, 100}, {64, 128}}
 	// one pool with more blocks than any traced history can fill (C05: capacity is exact)
@@ -258,9 +258,10 @@ func genAlloc6(c *ctx) {
 		if cfg.poolLen == 0 {
 			base = big.NewInt(0)
 		}
-		// never an IPv4-mapped base (outside Pool6.WF as the prefix plugin can produce it only from nonsense)
-		if ip := bigToIP(base); ip.To4() != nil {
-			base.SetBit(base, 127, 1)
+		// (IPv4-mapped bases and pools covering ::ffff:0:0/96 are ordinary pools: D18)
+		if c.rng.Intn(12) == 0 && cfg.poolLen <= 96 && cfg.page >= 96 {
+			// a pool that covers the IPv4-mapped range
+			base = new(big.Int).SetBytes(net.ParseIP("::ffff:0:0").To16())
 			base.Rsh(base, k).Lsh(base, k)
 		}
 		c.alloc6History(cfg, base)
@@ -336,9 +337,6 @@ func (c *ctx) alloc6History(cfg pool6cfg, base *big.Int) {
 				}
 				if x.Sign() >= 0 && x.Cmp(two128) < 0 {
 					ip = bigToIP(x)
-					if ip.To4() != nil {
-						ip = nil
-					}
 				}
 				ones, bits = c.hintLen(cfg.page), 128
 			case 10: // IPv4 forms and odd masks
@@ -358,9 +356,6 @@ func (c *ctx) alloc6History(cfg pool6cfg, base *big.Int) {
 				}
 			default:
 				ip = bigToIP(c.pat128())
-				if ip.To4() != nil {
-					ip = nil
-				}
 				ones, bits = c.hintLen(cfg.page), 128
 			}
 			res := s.exec(c, fmt.Sprintf("alloc %s %d %d", hx(ip), ones, bits))
@@ -406,9 +401,6 @@ func (c *ctx) alloc6History(cfg pool6cfg, base *big.Int) {
 				continue
 			}
 			ip := bigToIP(x)
-			if ip.To4() != nil {
-				continue
-			}
 			res := s.exec(c, fmt.Sprintf("free %s %d 128", hx(ip), ones))
 			if res == "ok" {
 				// drop whichever outstanding block contains x
